@@ -83,6 +83,9 @@ def main():
         s222, r = schedules(2, 2, pid + "-g3", reps=2)      # reseeding restarts the stream
         cov["states"] += r.distinct; cov["transitions"] += r.states
         configs.append(([{"type": "rng", "dist": "uniform", "seed": 5}, {"type": "rng", "dist": "gaussian", "seed": 5}], 2, s222))
+        for da, db in ((1, 3), (7, 2), (5, 50), (9, 4)):      # odd and even numbers of draws before the reseed
+            configs.append(([{"type": "rng", "dist": "gaussian", "seed": 5, "draws": da}, {"type": "rng", "dist": "gaussian", "seed": 9, "draws": db}], 2, s222))
+            configs.append(([{"type": "rng", "dist": "uniform", "seed": 5, "draws": da}, {"type": "rng", "dist": "gaussian", "seed": 5, "draws": da + 2}], 2, s222))
     runs = []
     for inst, nseg, scheds in configs:
         runs.append({"mode": "solo", "nseg": nseg, "instances": inst})
@@ -135,8 +138,9 @@ def main():
             k += n
         what = cur["instances"][bad["i"] - 1] if cur else {}
         rep.violation("schedule-dependent/%s/seg=%d" % (json.dumps(what, sort_keys=True), bad["k"]), {"run": cur, "line": bad},
-                      "the state of %s after its segment %d depends on what else ran in the process: digest %s differs from the solo run (schedule %s)"
-                      % (json.dumps(what), bad["k"], bad["h"], cur.get("sched") if cur else None))
+                      ("the state of %s after its segment %d depends on what else ran in the process" if not (cur and bad["k"] > cur["nseg"]) else
+                       "repeating %s on the same objects (re-initialised / reseeded) does not reproduce it at segment %d")
+                      % (json.dumps(what), bad["k"]) + ": digest %s differs from the solo run (schedule %s)" % (bad["h"], cur.get("sched") if cur else None))
     else:
         cov["traces_validated_against_impl"] += sum(1 for r1 in runs if r1["mode"] == "sched")
     cov["samples"] = [{"instances": configs[0][0], "schedule": configs[0][2][1], "digests": [o for o in lines if o["e"] == "Seg"][:6]}]
